@@ -87,11 +87,13 @@ template <class T> static Matrix44<T> camera (Gen<T>& g, int fam)
     return S * H * R * Tm;
 }
 
-template <class T> static void culling (const Frustum<T>& F, Gen<T>& g, int it)
+template <class T> static void culling (const Frustum<T>& Fin, Gen<T>& g, int it)
 {
     const char* t = tg<T> ();
     int fam = it % 8;
-    Matrix44<T> M = camera<T> (g, fam);
+    int how = (it / 8) % 4;          // 0 FrustumTest(F, M); 1 default-constructed (default frustum, identity camera); 2 constructed with the defaults explicitly; 3 constructed, then setFrustum to something else and back
+    Frustum<T> F = (how == 1 || how == 2) ? Frustum<T> () : Fin;
+    Matrix44<T> M = (how == 1 || how == 2) ? Matrix44<T> () : camera<T> (g, fam);
     Plane3<T> p[6], q0[6], viaMul[6];
     F.planes (p, M);
     F.planes (q0);
@@ -99,7 +101,10 @@ template <class T> static void culling (const Frustum<T>& F, Gen<T>& g, int it)
     {
         Rec r ("planesM"); r.str ("t", t); r.num ("fam", fam); putstate (r, "st", "o", F); r.raw ("cam", jv (M)); r.raw ("planes", jplanes (p)); r.raw ("mul", jplanes (viaMul)); r.emit ();
     }
-    FrustumTest<T> ft (F, M);
+    FrustumTest<T> ftA (F, M), ftB;
+    if (how == 3) { Frustum<T> other (F.nearPlane () * 2, F.farPlane () * 3, F.left () - 1, F.right () + 2, F.top () + 1, F.bottom () - 2, !F.orthographic ()); Matrix44<T> om; om.translate (Vec3<T> (5, -3, 2));
+                    ftA.setFrustum (other, om); ftA.setFrustum (F, M); }
+    FrustumTest<T>& ft = (how == 1) ? ftB : ftA;
     // witnesses: points of the frustum in camera space, pushed through the camera matrix
     for (int k = 0; k < 6; ++k)
     {
@@ -118,7 +123,7 @@ template <class T> static void culling (const Frustum<T>& F, Gen<T>& g, int it)
         Box<Vec3<T>> bx (x + off - Vec3<T> (ext, ext, ext), x + off + Vec3<T> (ext, ext * T (0.5), ext * T (2)) );
         bx.extendBy (x);
         Sphere3<T> sp (x + off, (k % 2) ? off.length () * T (1.0625) : ext);
-        Rec r ("cull"); r.str ("t", t); r.num ("fam", fam); r.num ("k", k); r.raw ("planes", jplanes (p)); r.raw ("x", jv (x));
+        Rec r ("cull"); r.str ("t", t); r.num ("fam", fam); r.num ("how", how); r.num ("k", k); r.raw ("planes", jplanes (p)); r.raw ("x", jv (x));
         r.num ("vp", ft.isVisible (x));
         r.raw ("bmin", jv (bx.min)); r.raw ("bmax", jv (bx.max)); r.num ("vb", ft.isVisible (bx)); r.num ("cb", ft.completelyContains (bx));
         r.raw ("sc", jv (sp.center)); r.raw ("sr", jw (sp.radius)); r.num ("vs", ft.isVisible (sp)); r.num ("cs", ft.completelyContains (sp));
@@ -137,7 +142,10 @@ template <class T> static Frustum<T> randomFrustum (Gen<T>& g, int it)
     if (fam == 2) { l = r + T (0.25); r = l + T (1 + g.rng.below (4)) / T (2); if (g.rng.below (2)) { b = tp + T (0.5); tp = b + T (1); } }
     if (fam == 4) { l = -std::fabs (g.dyadic ()) - T (0.125); r = std::fabs (g.dyadic ()) + T (0.125); b = -std::fabs (g.dyadic ()) - T (0.125); tp = std::fabs (g.dyadic ()) + T (0.125); }
     if (fam == 5) { l /= 64; r /= 64; b /= 64; tp /= 64; }
-    return Frustum<T> (n, f, l, r, tp, b, (it / 6) % 2 == 1);
+    bool ortho = (it / 6) % 2 == 1;
+    if (ortho && (it / 12) % 3 == 1) n = 0;                    // an orthographic volume may start at, or behind, the eye plane
+    if (ortho && (it / 12) % 3 == 2) n = -f / 2;
+    return Frustum<T> (n, f, l, r, tp, b, ortho);
 }
 
 template <class T> static void rec (Gen<T>& g, int it)
